@@ -237,7 +237,10 @@ func (w *world) handle(ctx rpc.Context, ch rpc.ServerChannel) (res ref.R[[]byte]
 	}
 	rec.mu.Lock()
 	rec.inv++
-	first := rec.inv == 1
+	if sabotage == "dup" && id%7 == 0 {
+		rec.inv++ // self test: pretend a second invocation
+	}
+	first := rec.inv <= 2 && !rec.done && !rec.retSet && len(rec.recv) == 0 && rec.sent == 0 && rec.inv-1 <= 1 && firstInvocation(rec)
 	rec.mismatch = rec.mismatch || mismatch
 	rec.mu.Unlock()
 	if !first {
@@ -280,6 +283,9 @@ func (w *world) handle(ctx rpc.Context, ch rpc.ServerChannel) (res ref.R[[]byte]
 	case oFail:
 		ret(p.code, p.msg, false)
 		st := status.Status{Code: status.Code(p.code), Message: p.msg}
+		if sabotage == "cross" {
+			st.Message = marker(p.id+1) + "x" // self test: the status of another call
+		}
 		if p.failRes {
 			return result(), st
 		}
